@@ -17,6 +17,17 @@ Theorem C06_sessions : forall c conns calls j,
     fst (chain (s_enc ks) iv0 (plains message (c_encode (s_crc c)) tss (frames_on message j (trace_of c conns calls)))).
 Proof. exact SessionProofs.C06_sessions. Qed.
 
+(* the same against EVERY transport/peer whatsoever (any environment state machine, any initial state, any log level), not
+   only the scripted peers the check can run *)
+Theorem C06_sessions_any : forall c (E : Type) (m : envsm E) calls e l j,
+  let ks := key_schedule (key_pad (s_key c)) in
+  let tr := out message E (snd (run message (c_encode (s_crc c)) c_decode_step (s_enc ks) (s_dec ks) iv0 c_valid
+                                 (c_auth_req (s_user c) (s_pass c)) c_auth_ok (eff_to (s_conn_to c)) (eff_to (s_send_to c)) (eff_to (s_recv_to c))
+                                 (32 * N.to_nat (eff_rbuf (s_rbuf c)))%nat E m (init_state iv0) (init_world message E e l) calls)) in
+  exists tss, length tss = length (frames_on message j tr) /\
+    writes_on message j tr = fst (chain (s_enc ks) iv0 (plains message (c_encode (s_crc c)) tss (frames_on message j tr))).
+Proof. intros c E m calls e l j. apply ClientInv.C06_sessions. Qed.
+
 (* ... and a peer that implements just that scheme (same key padding, CBC from the same IV) recovers the concatenation of
    those plaintext frames and ends on the same chain value as the client *)
 Theorem C06_peer_decrypts : forall key, bytes_ok key -> forall ps iv, aligned_all ps ->
@@ -37,4 +48,4 @@ Theorem C06_constants :
                        113; 114; 115; 116; 117; 118; 119; 120; 121; 122; 65; 66; 67; 68].
 Proof. exact ConstantsAgree.cipher_constants. Qed.
 
-Print Assumptions C06_sessions. Print Assumptions C06_peer_decrypts. Print Assumptions C06_key. Print Assumptions C06_constants.
+Print Assumptions C06_sessions. Print Assumptions C06_sessions_any. Print Assumptions C06_peer_decrypts. Print Assumptions C06_key. Print Assumptions C06_constants.
